@@ -243,6 +243,16 @@ fn callset(rows: &[Vec<Cls>], variant: usize) -> CallSet {
         cs.push_gts(&gts);
         let last = cs.records.len() - 1;
         cs.records[last].alts = vec!["C", "G", "T"];
+        // a record in which nobody carries an ALT allele is written without one (ALT `.`), its
+        // missing genotypes as `./.`, `.|.` or a bare `.`
+        if row.iter().all(|c| matches!(c, Cls::G0 | Cls::Missing)) {
+            cs.records[last].alts = vec![];
+            for (j, c) in row.iter().enumerate() {
+                if *c == Cls::Missing {
+                    cs.records[last].gts[j] = ["./.", ".|.", "."][(i + j + variant) % 3].to_string();
+                }
+            }
+        }
     }
     cs
 }
@@ -500,6 +510,19 @@ pub fn run(tier: Tier) -> i32 {
             .collect();
         cj.push(CliJob { map: map.clone(), rows: rows_big.clone(), m: m.clone(), precision: 6, individuals: false, what: "large-output", odd_unselected: false });
         cj.push(CliJob { map, rows: rows_big, m, precision: 6, individuals: true, what: "large-output", odd_unselected: false });
+    }
+    {
+        let sp: Vec<(Vec<String>, Vec<u8>)> = cj
+            .iter()
+            .filter(|j| j.what == "12-record" && !j.odd_unselected)
+            .map(|j| {
+                let cs = callset(&j.rows, j.m.iter().sum());
+                let shape: Vec<usize> = j.m.iter().map(|x| x + 1).collect();
+                let (flag, arg) = if j.individuals { ("-p", join_usizes(&j.m.iter().map(|x| x / 2).collect::<Vec<_>>(), ",")) } else { ("--project-shape", join_usizes(&shape, ",")) };
+                (vec!["create".to_string(), "-s".to_string(), sample_arg(&j.map), flag.to_string(), arg, "--precision".to_string(), "6".to_string()], to_vcf(&cs).0)
+            })
+            .collect();
+        super::spelling_part(&mut rep, "C02", "create -s <map> --project-shape / -p <target> for every map and target of the 12-record call set", &sp, &scratch);
     }
     let res = par_map(cj.len(), |i| eval_cli(&cj[i], &scratch));
     for v in res.into_iter().flatten() {
